@@ -281,7 +281,7 @@ func parseRegSingle(out string, dateLen int) ([]singleRow, error) {
 			return nil, fmt.Errorf("line %d %q: not a single-element row", ln+1, line)
 		}
 		rest, f, ok := lastFields(line[:i], 2)
-		if !ok {
+		if !ok || len(rest) < dateLen {
 			return nil, fmt.Errorf("line %d %q: not a single-element row", ln+1, line)
 		}
 		rows = append(rows, singleRow{Date: rest[:dateLen], Name: strings.TrimSpace(rest[dateLen:]), Pos: normNum(f[0]), Neg: normNum(f[1]), Sum: normNum(strings.TrimSpace(line[i+2:]))})
